@@ -17,6 +17,8 @@ pub enum Pat {
     EnumA,
     EnumB(Box<Pat>),
     EnumC(Box<Pat>, Box<Pat>),
+    /// struct S { a: u8, b: bool, c: i8 }: the listed (field index, pattern) pairs in the written order, `..` if the flag is set
+    Struct(Vec<(usize, Pat)>, bool),
 }
 
 #[derive(Clone, Debug, PartialEq)]
@@ -27,6 +29,7 @@ pub enum Val {
     A,
     B(i64),
     C(bool, bool),
+    S(i64, bool, i64),
 }
 
 #[derive(Clone, Debug, PartialEq)]
@@ -35,6 +38,15 @@ pub enum Ty {
     Bool,
     Tuple(Vec<Ty>),
     Enum,
+    Struct,
+}
+
+const S_FIELDS: [&str; 3] = ["a", "b", "c"];
+fn s_field_ty(i: usize) -> Ty {
+    match i { 0 => Ty::Int("u8", 0, 255), 1 => Ty::Bool, _ => Ty::Int("i8", -128, 127) }
+}
+fn s_field_val(v: &Val, i: usize) -> Val {
+    if let Val::S(a, b, c) = v { match i { 0 => Val::Int(*a), 1 => Val::Bool(*b), _ => Val::Int(*c) } } else { unreachable!() }
 }
 
 fn matches(p: &Pat, v: &Val) -> bool {
@@ -49,6 +61,7 @@ fn matches(p: &Pat, v: &Val) -> bool {
         (Pat::EnumA, Val::A) => true,
         (Pat::EnumB(p), Val::B(x)) => matches(p, &Val::Int(*x)),
         (Pat::EnumC(p, q), Val::C(a, b)) => matches(p, &Val::Bool(*a)) && matches(q, &Val::Bool(*b)),
+        (Pat::Struct(fs, _), Val::S(..)) => fs.iter().all(|(i, p)| matches(p, &s_field_val(v, *i))),
         _ => false,
     }
 }
@@ -69,6 +82,11 @@ fn show(p: &Pat, k: &mut usize) -> String {
         Pat::EnumA => "E::A".into(),
         Pat::EnumB(p) => format!("E::B({})", show(p, k)),
         Pat::EnumC(p, q) => format!("E::C({}, {})", show(p, k), show(q, k)),
+        Pat::Struct(fs, rest) => {
+            let mut parts: Vec<String> = fs.iter().map(|(i, p)| format!("{}: {}", S_FIELDS[*i], show(p, k))).collect();
+            if *rest { parts.push("..".into()); }
+            format!("S {{ {} }}", parts.join(", "))
+        }
     }
 }
 
@@ -78,13 +96,21 @@ fn ty_name(t: &Ty) -> String {
         Ty::Bool => "bool".into(),
         Ty::Tuple(ts) => format!("({})", ts.iter().map(ty_name).collect::<Vec<_>>().join(", ")),
         Ty::Enum => "E".into(),
+        Ty::Struct => "S".into(),
     }
 }
 
 pub fn program(t: &Ty, arms: &[Pat]) -> String {
     let mut k = 0;
     let body = arms.iter().enumerate().map(|(i, p)| format!("        {} => {}u8,", show(p, &mut k), i + 1)).collect::<Vec<_>>().join("\n");
-    format!("enum E {{ A, B(u8), C(bool, bool) }}\npub fn main(x: {}, z: bool) -> u8 {{\n    match x {{\n{body}\n    }}\n}}", ty_name(t))
+    format!("enum E {{ A, B(u8), C(bool, bool) }}\nstruct S {{ a: u8, b: bool, c: i8 }}\npub fn main(x: {}, z: bool) -> u8 {{\n    match x {{\n{body}\n    }}\n}}", ty_name(t))
+}
+
+/// the same match with arm bodies that update a variable of the enclosing scope: only the body of the selected arm may take effect
+pub fn program_mut(t: &Ty, arms: &[Pat]) -> String {
+    let mut k = 0;
+    let body = arms.iter().enumerate().map(|(i, p)| format!("        {} => {{ acc = acc * 2u16 + {}u16; {}u16 }}", show(p, &mut k), i + 1, i + 1)).collect::<Vec<_>>().join("\n");
+    format!("enum E {{ A, B(u8), C(bool, bool) }}\nstruct S {{ a: u8, b: bool, c: i8 }}\npub fn main(x: {}, z: bool) -> u16 {{\n    let mut acc = 1u16;\n    let r = match x {{\n{body}\n    }};\n    acc * 16u16 + r\n}}", ty_name(t))
 }
 
 /// representative values: whole domain for small integer types, boundary-induced regions otherwise
@@ -128,6 +154,26 @@ fn domain(t: &Ty, arms: &[Pat]) -> Vec<Val> {
                 res = next;
             }
             res.into_iter().map(Val::Tuple).collect()
+        }
+        Ty::Struct => {
+            let sub = |i: usize| -> Vec<Pat> { arms.iter().filter_map(|p| if let Pat::Struct(fs, _) = p { fs.iter().find(|(j, _)| *j == i).map(|(_, q)| q.clone()) } else { None }).collect() };
+            let (da, db, dc) = (domain(&s_field_ty(0), &sub(0)), domain(&s_field_ty(1), &sub(1)), domain(&s_field_ty(2), &sub(2)));
+            // the u8 / i8 fields have 256 values each: boundary-induced representatives keep the product small
+            let reps = |d: Vec<Val>, ps: Vec<Pat>| -> Vec<Val> {
+                let mut pts: Vec<i64> = vec![];
+                for v in &d { if let Val::Int(x) = v { pts.push(*x); } }
+                let mut keep: Vec<i64> = vec![pts[0], *pts.last().unwrap(), 0.max(pts[0]), (-1i64).max(pts[0]), 1.max(pts[0])];
+                for p in &ps { match p { Pat::Int(n) => keep.extend([n - 1, *n, n + 1]), Pat::Incl(a, b) | Pat::Excl(a, b) => keep.extend([a - 1, *a, a + 1, b - 1, *b, b + 1]), _ => {} } }
+                keep.retain(|x| pts.contains(x));
+                keep.sort(); keep.dedup();
+                keep.into_iter().map(Val::Int).collect()
+            };
+            let (ra, rc) = (reps(da, sub(0)), reps(dc, sub(2)));
+            let mut out = vec![];
+            for a in &ra { for b in &db { for c in &rc {
+                if let (Val::Int(a), Val::Bool(b), Val::Int(c)) = (a, b, c) { out.push(Val::S(*a, *b, *c)); }
+            } } }
+            out
         }
         Ty::Enum => {
             let mut v = vec![Val::A];
@@ -179,6 +225,12 @@ fn encode(t: &Ty, v: &Val, out: &mut Vec<bool>) {
                 out.push(false);
             }
         }
+        (Ty::Struct, Val::S(a, b, c)) => {
+            // fields in the order of the definition (which is also alphabetical): a: u8, b: bool, c: i8
+            for i in 0..8 { out.push((a >> (7 - i)) & 1 == 1); }
+            out.push(*b);
+            for i in 0..8 { out.push((c >> (7 - i)) & 1 == 1); }
+        }
         _ => panic!("value does not match type"),
     }
 }
@@ -188,7 +240,10 @@ pub fn check_case(t: &Ty, arms: &[Pat]) -> Result<bool, String> {
     let dom = domain(t, arms);
     let first: Vec<Option<usize>> = dom.iter().map(|v| arms.iter().position(|p| matches(p, v))).collect();
     let exhaustive = first.iter().all(|f| f.is_some());
-    let checked = garble_lang::check(&src);
+    let checked = match std::panic::catch_unwind(|| garble_lang::check(&src)) {
+        Ok(r) => r,
+        Err(_) => return Err(format!("the type checker panics on this match (it must accept it or reject it):\n{src}")),
+    };
     match (&checked, exhaustive) {
         (Err(e), true) => {
             let msg = format!("{e:?}");
@@ -218,6 +273,22 @@ pub fn check_case(t: &Ty, arms: &[Pat]) -> Result<bool, String> {
         }
         if r != f.unwrap() + 1 {
             return Err(format!("on {v:?} the first matching arm is #{}, the circuit returns {r}:\n{src}", f.unwrap() + 1));
+        }
+    }
+    // arm bodies with an effect on an outer variable: the effect of the selected arm only
+    let src2 = program_mut(t, arms);
+    let prg2 = garble_lang::compile(&src2).map_err(|e| format!("accepted program does not compile: {e:?}\n{src2}"))?;
+    for (v, f) in dom.iter().zip(&first).step_by(if dom.len() > 64 { 7 } else { 1 }) {
+        let mut bits = vec![];
+        encode(t, v, &mut bits);
+        let out = prg2.circuit.eval(&[bits, vec![false]]);
+        let mut r = 0usize;
+        for b in &out[161..] {
+            r = (r << 1) | (*b as usize);
+        }
+        let k = f.unwrap() + 1;
+        if out[0] || r != (2 + k) * 16 + k {
+            return Err(format!("on {v:?} arm #{k} is selected: expected acc = {} and result {k}, the circuit returns acc * 16 + r = {r} (panic {}):\n{src2}", 2 + k, out[0]));
         }
     }
     Ok(true)
@@ -268,6 +339,15 @@ fn rand_pat(rng: &mut Rng, t: &Ty) -> Pat {
         Ty::Tuple(ts) => {
             if rng.below(6) == 0 { Pat::Wild } else { Pat::Tuple(ts.iter().map(|t| rand_pat(rng, t)).collect()) }
         }
+        Ty::Struct => {
+            if rng.below(7) == 0 { return Pat::Wild; }
+            // a random subset of the fields in a random order; `..` whenever a field is left out (and sometimes anyway)
+            let mut idx = vec![0usize, 1, 2];
+            for i in (1..3).rev() { let j = rng.below(i + 1); idx.swap(i, j); }
+            let keep = 1 + rng.below(3);
+            let fs: Vec<(usize, Pat)> = idx[..keep].iter().map(|i| (*i, rand_pat(rng, &s_field_ty(*i)))).collect();
+            Pat::Struct(fs, keep < 3 || rng.below(4) == 0)
+        }
         Ty::Enum => match rng.below(5) {
             0 => Pat::Wild,
             1 => Pat::EnumA,
@@ -291,6 +371,8 @@ pub fn types() -> Vec<Ty> {
         Ty::Tuple(vec![Ty::Int("u8", 0, 255), Ty::Bool, Ty::Bool]),
         Ty::Enum,
         Ty::Tuple(vec![Ty::Enum, Ty::Bool]),
+        Ty::Struct,
+        Ty::Tuple(vec![Ty::Struct, Ty::Bool]),
     ]
 }
 
@@ -393,6 +475,7 @@ pub fn known_f1(t: &Ty, arms: &[Pat], what: &str) -> bool {
 }
 
 pub fn search(args: &[String]) -> i32 {
+    std::panic::set_hook(Box::new(|_| {}));
     let seed = arg_u64(args, "--seed", 1);
     let random = arg_u64(args, "--random", 1500);
     let known = arg(args, "--known").map(|k| k.split(',').any(|x| x == "C08-F1")).unwrap_or(false);
@@ -458,7 +541,7 @@ pub fn search(args: &[String]) -> i32 {
         println!("known-finding: C08-F1 cases={known_hits} example={known_example}");
     }
     println!(
-        "stats-json: {{\"evaluations\": {n}, \"distinct_nontrivial\": {}, \"rule\": \"random and directed arm lists (1-6 arms of literal / inclusive / exclusive range / wildcard / binding / tuple / enum patterns) over 12 scrutinee types; non-trivial = the checker gives an exhaustiveness verdict (no other type error); distinct = different program text\", \"samples\": [{}]}}",
+        "stats-json: {{\"evaluations\": {n}, \"distinct_nontrivial\": {}, \"rule\": \"random and directed arm lists (1-6 arms of literal / inclusive / exclusive range / wildcard / binding / tuple / struct (any field order, `..`) / enum patterns) over 14 scrutinee types; non-trivial = the checker gives an exhaustiveness verdict (no other type error); distinct = different program text\", \"samples\": [{}]}}",
         distinct.len(),
         samples.iter().map(|s| format!("\"{s}\"")).collect::<Vec<_>>().join(", ")
     );
